@@ -68,30 +68,30 @@ theorem step_nstep {P : Params} (hP : P.Valid) (σ : Sys P) (hinv : Inv P hP σ)
     (hen : enabled σ a = true) :
     ∃ (i : Op P) (c' : Ctrl) (outs : List Out) (evs : List (Ev (Op P))), P.honest i = true ∧
       step σ a = σ.update i c' outs evs ∧ Shape P.height c' ∧
-      NStep (P.cfg i) P.height (fun m => authentic P σ.log m = true) i (instAt P.height (σ.ctrl i))
+      NStep (P.cfg i) P.height (fun m => authentic P σ.log m = true ∧ m.ident = ownIdent) i (instAt P.height (σ.ctrl i))
         (instAt P.height c') (bcasts outs) evs := by
   cases a with
   | start i v =>
     have hi : P.honest i = true := hen
-    obtain ⟨h1, h2⟩ := ctrl_start_node (P.cfg i) P.height (fun m => authentic P σ.log m = true) i (σ.ctrl i) v
+    obtain ⟨h1, h2⟩ := ctrl_start_node (P.cfg i) P.height (fun m => authentic P σ.log m = true ∧ m.ident = ownIdent) i (σ.ctrl i) v
       (hinv.shape i) (capacity_pos P i)
     exact ⟨i, _, _, _, hi, rfl, h1, h2⟩
   | deliver i m =>
     have hen' : P.honest i = true ∧ authentic P σ.log m = true := by
       simpa [enabled] using hen
-    obtain ⟨h1, h2⟩ := ctrl_processMsg_node (P.cfg i) P.height (fun m => authentic P σ.log m = true) i (σ.ctrl i) m
-      (hinv.shape i) (capacity_pos P i) hen'.2
-      (fun hv _ => (cert_facts hP hinv.log i m hv hen'.2).height)
+    obtain ⟨h1, h2⟩ := ctrl_processMsg_node (P.cfg i) P.height (fun m => authentic P σ.log m = true ∧ m.ident = ownIdent) i (σ.ctrl i) m
+      (hinv.shape i) (capacity_pos P i) (fun hid => ⟨hen'.2, hid⟩)
+      (fun hv hid => (cert_facts hP hinv.log i m hv hen'.2 hid).height)
     exact ⟨i, _, _, _, hen'.1, rfl, h1, h2⟩
   | timeout i r =>
     have hi : P.honest i = true := hen
-    obtain ⟨h1, h2⟩ := ctrl_onTimeout_node (P.cfg i) P.height (fun m => authentic P σ.log m = true) i (σ.ctrl i) r
+    obtain ⟨h1, h2⟩ := ctrl_onTimeout_node (P.cfg i) P.height (fun m => authentic P σ.log m = true ∧ m.ident = ownIdent) i (σ.ctrl i) r
       (hinv.shape i)
     exact ⟨i, _, _, _, hi, rfl, h1, h2⟩
 
 theorem inv_update {P : Params} (hP : P.Valid) (σ : Sys P) (hinv : Inv P hP σ) (i : Op P) (hi : P.honest i = true)
     (c' : Ctrl) (outs : List Out) (evs : List (Ev (Op P))) (hsh : Shape P.height c')
-    (hst : NStep (P.cfg i) P.height (fun m => authentic P σ.log m = true) i (instAt P.height (σ.ctrl i))
+    (hst : NStep (P.cfg i) P.height (fun m => authentic P σ.log m = true ∧ m.ident = ownIdent) i (instAt P.height (σ.ctrl i))
         (instAt P.height c') (bcasts outs) evs) :
     Inv P hP (σ.update i c' outs evs) := by
   have X : StepCtx P hP σ.trace σ.log i (instAt P.height (σ.ctrl i)) (instAt P.height c') (bcasts outs) evs :=
